@@ -435,6 +435,16 @@ func TestC12Sweep(t *testing.T) {
 			run(&c12Case{Stream: big, PipeCap: cap, TLS: true, ReadPlan: []Fault{{Op: FStall, D: 7000}}, SendCtx: []string{ctx0}})
 		}
 	}
+	// a receiver that stays away for longer than one, two and three write polls while the sender (with a context that
+	// lives on) sits in the middle of an envelope: the write resumes after each poll, nothing is lost or repeated
+	for _, cap := range []int{16, 64, 200, 1024} {
+		for _, d := range []int{5500, 7000, 12000, 17000} {
+			for _, tls := range []bool{false, true} {
+				run(&c12Case{Stream: big, PipeCap: cap, TLS: tls, ReadPlan: []Fault{{Op: FStall, D: d}}})
+				run(&c12Case{Stream: big, PipeCap: cap, TLS: tls, ReadPlan: []Fault{{Op: FChunk, N: 150}, {Op: FStall, D: d}, {Op: FChunk, N: 333}, {Op: FStall, D: d}}})
+			}
+		}
+	}
 	// a receiver with short deadlines of its own and a stream that stalls at every offset inside envelopes whose documents
 	// look like envelopes: the Receive that was cut short is followed by more Receives
 	relay := relayStream(3)
